@@ -38,7 +38,8 @@ Shape of the output
     `pyFinally` runs its second block on every exit but `hang`;
   * locals live in a per-function record `f.L` (fields `a0…` = parameters, `v0…` = locals in order of first binding,
     `c0…` = lists built by a comprehension), results of oracle / method calls, loop variables, handler variables and
-    narrowed Optionals are lambda-bound (`r0…`, `i0…`, `e0…`, `n0…`): renaming a local does not change the text.
+    narrowed Optionals are lambda-bound (`r0…`, `i0…`, `e0…`, `n0…`): renaming a local changes only the comments that
+    quote the source (doc comments of the fields, the notes on skipped statements), not a definition.
     A record field read before it is definitely assigned is rejected, so the dummy initial value of a field is
     never observed.
 
